@@ -23,6 +23,23 @@ CLAIMS = {
   note=NOTE_COMMON + "Over-approximation: the typestate is path-insensitive (may report infeasible paths, cannot miss a feasible one "
        "inside the analysed functions); accesses through aliases of the registry (none exist: it is a private static member) "
        "are not tracked. Known findings: 21 file-scope variables of transport.cpp (see known_findings.json)."),
+ "C13": dict(
+  technique="API-matrix table agreement + forwarder-shape analysis of every C/Fortran wrapper + guarded-copy shape of padfstring + setter/getter field pairing",
+  text=("Static structural analysis of the three binding layers, rebuilt from the current source on every run: (a) the "
+        "four-layer API matrix (IPhreeqc.h declarations, IPhreeqcLib.cpp definitions, IPhreeqc methods, *F glue, F90 BIND(C) "
+        "blocks and PARAMETER constants) is complete up to a frozen holes table; (b) each of the 75 C functions with an id is a "
+        "pure forwarder: GetInstance(id), one call of the same-named method with the parameters in order (adapter != 0 for "
+        "int->bool), result forwarded / mapped 0|1 / translated by a like-named VRESULT->IPQ_RESULT switch that covers every "
+        "code the method can return; the non-live path calls no project code, writes nothing and returns IPQ_BADINSTANCE / a "
+        "non-positive constant / a non-null constant string; (c) each *F function forwards *id and its arguments to the C "
+        "function with exactly the nine documented 1-based->0-based shifts, strings through padfstring, and converts a VAR "
+        "exactly as GetSelectedOutputValue2 does; (d) padfstring never stores more than *len bytes and reports strlen(src); "
+        "(e) ids are never reused and DestroyIPhreeqc deletes only a live instance; (f) every setter stores its parameter in the "
+        "field its getter reads (per-user-number maps keyed by the current user number), name setters ignore null/empty, "
+        "constructor defaults as documented. This property is about code shape, so the structural clauses are the property; "
+        "not decided: the body of the Fortran module (no Fortran front end: binding table only)."),
+  note=NOTE_COMMON + "Oracle: the layers against each other and the doc comments of IPhreeqc.h (parsed by clang). Frozen tables: "
+       "c13_api_holes.json, c13_fortran_shifts.json, c13_store.json. Known finding: get_sel_out_string_on ignores its parameter."),
 }
 
 NOT_APPLICABLE = {
